@@ -3,8 +3,8 @@ From AHP Require Export Model.Base Model.Str Model.Attr Model.Dom Model.Serial M
 
 Definition ocase := (pclass * (list token * option (list token)) * list obs)%type.
 Definition show_raw (d : tag) : string := sjoin ";" (map (sjoin ",") (raw_keys d)).
-Definition show_ident (i : nat * string * option nat * option nat) : string :=
-  let '(u, n, p, o) := i in nat_to_string u +++ ":" +++ n +++ ":" +++ opt2s p.
+Definition show_ident (i : nat * string * option nat * option nat * list nat * string) : string :=
+  let '(u, n, p, o, ch, tx) := i in nat_to_string u +++ ":" +++ n +++ ":" +++ opt2s p +++ ":" +++ sjoin "." (map nat_to_string ch).
 Fixpoint run_obs (s : ostate) (os : list obs) : list string :=
   match os with
   | [] => []
